@@ -363,3 +363,437 @@ def setup_ok(o):
         if l == "C08:PRE" and k + 1 < len(o.lines):
             got_pre.append(o.lines[k + 1])
     return got_pre == pre
+
+
+def san_kind(rep):
+    """short, address-free class of a sanitizer report"""
+    m = re.search(r"AddressSanitizer: ([A-Za-z-]+)", rep or "")
+    if m:
+        return "asan-" + m.group(1)
+    m = re.search(r"runtime error: (.*)", rep or "")
+    if m:
+        t = re.sub(r"'[^']*'", "T", m.group(1))
+        t = re.sub(r"0x[0-9a-f]+|\d+", "N", t)
+        return "ubsan-" + re.sub(r"[^A-Za-z]+", "-", t).strip("-")[:48]
+    return "report"
+
+
+# ---------------------------------------------------------------------------------------------------------
+# assembler level: field / variant / tuple index >= count
+# ---------------------------------------------------------------------------------------------------------
+ASM_OPS = ("TUPLE_GET", "STRUCT_GET", "STRUCT_SET", "UNION_FIELD")
+ASM_COUNTS = (0, 1, 2, 3, 4)
+
+
+def asm_ks(count):
+    ks = []
+    for cls, k in (("count", count), ("count+1", count + 1), ("255", 255), ("256", 256), ("65535", 65535)):
+        if k >= count and k not in [x[1] for x in ks]:
+            ks.append((cls, k))
+    return ks
+
+
+def asm_program(op, count, k, control):
+    L = ['.string "C08:BEFORE"', '.string "C08:VALUE"', '.string "C08:AFTER"', ".function main 0 1 0",
+         "  PUSH_STR 0", "  PRINTLN"]
+    for j in range(count):
+        L.append("  PUSH_I64 %d" % (10 + j))
+    if op == "TUPLE_GET":
+        L.append("  TUPLE_NEW %d" % count)
+    elif op == "UNION_FIELD":
+        L.append("  UNION_CONSTRUCT 0 1 %d" % count)
+    else:
+        L.append("  STRUCT_LITERAL 0 %d" % count)
+    exp = []
+    if op == "STRUCT_SET":
+        L += ["  PUSH_I64 77", "  STRUCT_SET %d" % k, "  PUSH_STR 1", "  PRINTLN"]
+        if control:
+            L += ["  STRUCT_GET %d" % k, "  PRINTLN"]
+            exp = ["77"]
+        else:
+            L += ["  POP"]
+    else:
+        L += ["  %s %d" % (op, k), "  PUSH_STR 1", "  PRINTLN", "  PRINTLN"]
+        if control:
+            exp = [str(10 + k)]
+    L += ["  PUSH_STR 2", "  PRINTLN", "  PUSH_I64 0", "  RET", ".end", ".entry 0"]
+    return "\n".join(L) + "\n", exp
+
+
+def asm_cells():
+    cells = []
+    for op in ASM_OPS:
+        for count in ASM_COUNTS:
+            for cls, k in asm_ks(count):
+                cells.append((op, count, k, cls, False))
+            for k in sorted(set([0, count - 1])) if count > 0 else []:
+                cells.append((op, count, k, "ctl", True))
+    return cells
+
+
+def asm_execute(flavor, sc, cell, seq):
+    """-> {runner: (verdict, detail, Result)} for runner in nano_vm (verifier on, the real binary) and
+    probe (in-process vm_execute, verifier skipped)"""
+    op, count, k, cls, control = cell
+    src, exp = asm_program(op, count, k, control)
+    d = sc.sub("asm/%04d" % seq)
+    engines.write_files(d, {"case.nasm": src})
+    out = {}
+    ra = sh([flavor.probe("c08_asm_probe"), "asm", "case.nasm", "case.nvm"], cwd=d, cpu=10, san=True)
+    runs = []
+    if ra.rc == 0 and os.path.exists(os.path.join(d, "case.nvm")):
+        runs.append(("nano_vm", sh([flavor.nano_vm, "case.nvm"], cwd=d, cpu=10, san=True)))
+    else:
+        out["nano_vm"] = ("skip:assemble", ra.errtext()[-300:], ra)
+    runs.append(("probe", sh([flavor.probe("c08_asm_probe"), "run", "case.nasm"], cwd=d, cpu=10, san=True)))
+    for runner, r in runs:
+        lines = r.text().split("\n")
+        rep = san_report(r)
+        has_v, has_a = "C08:VALUE" in lines, "C08:AFTER" in lines
+        ok0 = (r.rc == 0 and not r.sig)
+        if r.timeout:
+            v = ("skip:timeout", "")
+        elif runner == "nano_vm" and "verification failed" in r.errtext():
+            v = ("skip:verifier-refused", r.errtext()[-200:])
+        elif runner == "probe" and r.rc in (4, 5):
+            v = ("skip:assemble", r.errtext()[-200:])
+        elif control:
+            got = section(lines, "C08:VALUE", "C08:AFTER")
+            if rep:
+                v = ("control-failed:sanitizer", rep[:300])
+            elif not ok0 or not has_a or got != exp:
+                v = ("control-failed", "rc=%s sig=%s got=%r expected=%r" % (r.rc, r.sig, got, exp))
+            else:
+                v = ("ok", "")
+        elif rep:
+            v = ("sanitizer:" + san_kind(rep), rep[:600])
+        elif has_a:
+            v = ("continued", "")
+        elif has_v:
+            v = ("value", "")
+        elif ok0:
+            v = ("exit0", "")
+        else:
+            v = ("stopped", "")
+        out[runner] = (v[0], v[1], r)
+    return src, out
+
+
+# ---------------------------------------------------------------------------------------------------------
+# char_at: observed, not judged (strings are outside the property's statement; docs/STDLIB.md contradicts itself:
+# "Bounds-checked - I terminate" in one place, "or 0 if the index is out of bounds" in another)
+# ---------------------------------------------------------------------------------------------------------
+def char_at_program(engine, n, i):
+    s = "abcdefgh"[:n]
+    L = ["fn t(i: int) -> int {",
+         '    let s: string = "%s"' % s,
+         '    (println "C08:START")',
+         '    (println (+ "C08:BEFORE i=" (int_to_string i)))',
+         "    let v: int = (char_at s i)",
+         '    (println "C08:VALUE")',
+         "    (println v)",
+         '    (println "C08:AFTER")',
+         "    return 0",
+         "}"]
+    if engine == "eval":
+        L += ["shadow t {\n    (t %s)\n}" % idx_src(i), "fn main() -> int {\n    return 0\n}"]
+    else:
+        L += ["shadow t { assert true }", "fn main() -> int {\n    return (t %s)\n}" % idx_src(i)]
+    L.append("shadow main { assert true }")
+    return "\n".join(L) + "\n"
+
+
+# ---------------------------------------------------------------------------------------------------------
+# the check
+# ---------------------------------------------------------------------------------------------------------
+def native_sample(ctx, cells):
+    """quick tier: ~150 fault cells of the native grid, stratified: two random lengths per (op, kind, construction),
+    three index classes per chosen group (rotating so that every class is hit equally often), every array_pop
+    (kind, construction) once; plus the controls of the chosen groups."""
+    rng = ctx.rng("native-sample")
+    by_group = {}
+    for c in cells:
+        by_group.setdefault(c.group, []).append(c)
+    chosen = []
+    j = 0
+    for op in OPS:
+        for kind in KINDS:
+            for cons in CONS:
+                ns = [n for n in LENGTHS if (op, kind, cons, n) in by_group]
+                if op == "array_pop":
+                    picks = rng.sample(ns, 1)
+                else:
+                    picks = rng.sample(ns, 2)
+                for n in picks:
+                    grp = by_group[(op, kind, cons, n)]
+                    faults = [c for c in grp if not c.control]
+                    if op == "array_pop":
+                        chosen += faults
+                    else:
+                        classes = ["neg", "len", "len+1", "2^31", "2^32+k", "int64max", "int64min"]
+                        for t in range(3):
+                            cls = classes[(3 * j + t) % 7]
+                            cands = [c for c in faults if c.cls == cls]
+                            chosen.append(rng.choice(cands))
+                        j += 1
+                    chosen += [c for c in grp if c.control]
+    return chosen
+
+
+def describe(o):
+    out = o.text
+    if o.cell.engine == "eval":        # nanoc --verbose: keep the lines of the shadow block only
+        out = "\n".join(l for l in o.lines if "C08:" in l or re.match(r"^(-?\d+|true|false|void|s\d|new)?$", l))
+    return "rc=%s sig=%s\n--- stdout (tail)\n%s\n--- stderr (tail)\n%s" % (o.rc, o.sig, out[-500:], o.stderr[-700:])
+
+
+def key_for(c, observed):
+    if c.engine in ("vm", "nano_vm"):
+        return "%s|%s|%s|%s" % (c.engine, c.op, c.cls, observed)
+    if c.engine == "native":
+        return "native|%s|%s|%s|%s" % (c.op, c.kind, c.cls, observed)
+    return "eval|%s|%s|%s|%s" % (c.op, c.cons, c.cls, observed)
+
+
+ENGINE_TEXT = {"vm": "nano_virt --run", "nano_vm": "nano_vm on the .nvm emitted by nano_virt", "native": "the compiled binary",
+               "eval": "nanoc's evaluator (shadow block)"}
+OBS_TEXT = {"continued": "the program keeps running (the statements after the access print, C08:AFTER is reached)",
+            "value": "the access yields a value the program goes on to use (C08:VALUE printed)",
+            "exit0": "the run ends with exit status 0", "binary": "nanoc fails but still writes a binary"}
+
+
+def run(ctx):
+    asan = build.get("asan")
+    ctx.require(os.path.exists(asan.probe("c08_asm_probe")), "probe c08_asm_probe missing from the asan flavor")
+    with Scratch("c08") as sc:
+        plan = {}
+        full = {}
+        for eng in ENGINES:
+            cells = grid(eng)
+            full[eng] = cells
+            if eng == "native" and ctx.quick():
+                cells = native_sample(ctx, cells)
+            uniq = {}
+            for c in cells:
+                uniq.setdefault(c.ident(), c)
+            plan[eng] = (cells, uniq)
+
+        jobs = []
+        for eng in ENGINES:
+            for k, c in enumerate(plan[eng][1].values()):
+                jobs.append((c, k))
+        # expensive engines first so that the pool drains evenly
+        jobs.sort(key=lambda t: {"native": 0, "eval": 1, "nano_vm": 2, "vm": 3}[t[0].engine])
+
+        def do(job):
+            c, k = job
+            o = execute(asan, sc, c, k)
+            if o.timeout or (o.skip or "").endswith("timeout"):
+                o = execute(asan, sc, c, k)          # a watchdog is re-run once before it is believed
+            return o
+
+        results = {}
+        for o in pmap(do, jobs):
+            results[o.cell.ident()] = o
+
+        hist = {}
+        ctl_hist = {}
+        skipped = {}
+        evaluated = {e: 0 for e in ENGINES}
+        distinct = set()
+        controls_ok = {e: 0 for e in ENGINES}
+        controls_all = {e: 0 for e in ENGINES}
+        timeouts = 0
+        samples = []
+        # controls
+        ctl_verdict = {}
+        for eng in ENGINES:
+            for ident, c in plan[eng][1].items():
+                if not c.control:
+                    continue
+                o = results[ident]
+                controls_all[eng] += 1
+                if o.skip:
+                    v = "skip:" + o.skip
+                elif o.timeout:
+                    v = "skip:timeout"
+                    timeouts += 1
+                else:
+                    v = judge(o)[0]
+                ctl_verdict[ident] = v
+                if v == "ok":
+                    controls_ok[eng] += 1
+                hk = "%s|%s|%s|%s|%s" % (eng, c.op, c.kind, c.cons, v)
+                ctl_hist[hk] = ctl_hist.get(hk, 0) + 1
+        # faults
+        for eng in ENGINES:
+            cells, uniq = plan[eng]
+            groups = {}
+            for c in cells:
+                if c.control:
+                    groups.setdefault(c.group, []).append(c.ident())
+            seen = set()
+            for c in cells:
+                if c.control or c.ident() in seen:
+                    continue
+                seen.add(c.ident())
+                o = results[c.ident()]
+                cv = [ctl_verdict[i] for i in dict.fromkeys(groups.get(c.group, []))]
+                n_at_access = c.group[3]
+                vouched = bool(cv) and (any(v == "ok" for v in cv) if n_at_access == 0 else all(v == "ok" for v in cv))
+                reason = None
+                if o.skip:
+                    reason = o.skip
+                elif o.timeout:
+                    reason = "timeout"
+                    timeouts += 1
+                elif not vouched:
+                    bad = [v for v in cv if v != "ok"]
+                    reason = "control:" + (bad[0] if bad else "none")
+                elif setup_ok(o) is False:
+                    reason = "setup-differs"
+                if reason:
+                    sk = "%s|%s|%s|%s|%s" % (eng, c.op, c.kind, c.cons, reason)
+                    skipped[sk] = skipped.get(sk, 0) + 1
+                    continue
+                verdict, detail = judge(o)
+                if verdict == "sanitizer":
+                    verdict = "sanitizer:" + san_kind(o.san)
+                evaluated[eng] += 1
+                distinct.add(c.ident())
+                hk = "%s|%s|%s|%s" % (eng, c.op, c.cls, verdict)
+                hist[hk] = hist.get(hk, 0) + 1
+                if verdict == "stopped":
+                    if len(samples) < 8 and (len(samples) < 4 or eng not in [s["engine"] for s in samples]):
+                        samples.append({"engine": eng, "cell": c.name(), "rc": o.rc, "signal": o.sig,
+                                        "stderr_tail": o.stderr.strip()[-160:]})
+                    continue
+                what = ("%s: `%s` on an array<%s> (%s, length %d at the access) with %s is not stopped: %s\n"
+                        "cell %s, index class %s\n%s" % (
+                            ENGINE_TEXT[eng], c.op, TYPE[c.kind], c.cons, c.live_len(),
+                            "no element left" if c.idx is None else "index %d" % c.idx,
+                            OBS_TEXT.get(verdict, "sanitizer report: " + (o.san or "")[:300]),
+                            c.name(), c.cls, describe(o)))
+                files = {"main.nano": o.src, "stdout.txt": o.text, "stderr.txt": o.stderr,
+                         "cmd.txt": {"vm": "nano_virt main.nano --run", "nano_vm": "nano_virt main.nano --emit-nvm -o main.nvm && nano_vm main.nvm",
+                                     "native": "nanoc main.nano -o main.bin && ./main.bin   # asan flavor, NANO_CC=tools/fastcc",
+                                     "eval": "nanoc main.nano -o main.bin --verbose   # must fail and write no binary"}[eng] + "\n"}
+                ctx.violation(key_for(c, verdict), what, files)
+
+        # ---- assembler level ----------------------------------------------------------------------
+        acells = asm_cells()
+        asm_hist = {}
+        asm_ctl = {}
+        asm_eval = 0
+        asm_res = pmap(lambda t: (t[1], asm_execute(asan, sc, t[1], t[0])), list(enumerate(acells)))
+        for (op, count, k, cls, control), (src, out) in asm_res:
+            if control:
+                for runner, (v, d, r) in out.items():
+                    asm_ctl[(runner, op, count)] = asm_ctl.get((runner, op, count), True) and v == "ok"
+        verifier_note = set()
+        for (op, count, k, cls, control), (src, out) in asm_res:
+            if control:
+                continue
+            for runner, (v, d, r) in out.items():
+                vouch = asm_ctl.get((runner, op, count if count > 0 else 1), False)
+                if v.startswith("skip:") or not vouch:
+                    hk = "asm|%s|%s|%s" % (runner, op, v if v.startswith("skip:") else "skip:control")
+                    skipped[hk] = skipped.get(hk, 0) + 1
+                    if v == "skip:verifier-refused":
+                        verifier_note.add(op)
+                    continue
+                asm_eval += 1
+                distinct.add(("asm", runner, op, count, k))
+                hk = "asm|%s|%s|%s|%s" % (runner, op, cls, v)
+                asm_hist[hk] = asm_hist.get(hk, 0) + 1
+                if v != "stopped":
+                    ctx.violation("asm|%s|%s|%s|%s" % (runner, op, cls, v),
+                                  "%s %d on an object with %d field(s) is not stopped (%s, %s): %s\nrc=%s sig=%s\n%s\n%s" % (
+                                      op, k, count, runner, "verifier skipped" if runner == "probe" else "verifier on", v,
+                                      r.rc, r.sig, r.text()[-300:], r.errtext()[-500:]),
+                                  {"case.nasm": src, "cmd.txt": "c08_asm_probe asm case.nasm case.nvm && nano_vm case.nvm\nc08_asm_probe run case.nasm\n"})
+
+        # ---- char_at: observed only -----------------------------------------------------------------
+        ca_jobs = []
+        for eng in ("native", "vm", "eval"):
+            for n in (0, 1, 3):
+                for cls, i in oob_indices(n):
+                    if cls == "2^32+k" and i != (1 << 32):
+                        continue
+                    ca_jobs.append((eng, n, cls, i))
+        if ctx.quick():
+            ca_jobs = [j for j in ca_jobs if j[0] != "native" or j[1] == 3]
+
+        def do_ca(t):
+            k, (eng, n, cls, i) = t
+            d = sc.sub("char_at/%03d" % k)
+            engines.write_files(d, {"main.nano": char_at_program(eng, n, i)})
+            if eng == "vm":
+                r = engines.run_vm(asan, d, san=True)
+            else:
+                rb, built = engines.build_native(asan, d, san=True, verbose=(eng == "eval"))
+                if eng == "eval":
+                    r = rb
+                elif not built:
+                    return (eng, cls, "not-built")
+                else:
+                    r = sh([os.path.join(d, "main.bin")], cwd=d, cpu=10, san=True, env=NATIVE_ENV)
+            lines = r.text().split("\n")
+            rep = san_report(r)
+            if rep:
+                return (eng, cls, "sanitizer:" + san_kind(rep))
+            if "C08:AFTER" in lines:
+                val = section(lines, "C08:VALUE", "C08:AFTER")
+                return (eng, cls, "continued value=%s exit=%s" % ("/".join(val or []), r.status))
+            return (eng, cls, "stopped exit=%s" % r.status)
+
+        ca_hist = {}
+        for eng, cls, v in pmap(do_ca, list(enumerate(ca_jobs))):
+            ca_hist["%s|%s" % (eng, v)] = ca_hist.get("%s|%s" % (eng, v), 0) + 1
+            if v.startswith("sanitizer"):
+                ctx.note("char_at out of range (%s, %s): %s - outside C08's statement, recorded only" % (eng, cls, v))
+
+        n_proc = len(jobs) + 2 * len(acells) + len(ca_jobs)
+        if not ctx.violations:
+            ctx.require(timeouts == 0, "%d cell(s) hit the watchdog twice" % timeouts)
+            for eng, lo in (("vm", 0.9), ("nano_vm", 0.9), ("eval", 0.4), ("native", 0.5)):
+                total = sum(1 for c in plan[eng][1].values() if not c.control)
+                ctx.require(evaluated[eng] >= lo * total,
+                            "engine %s: only %d of %d fault cells could be evaluated (controls failed / not built)" % (eng, evaluated[eng], total))
+            ctx.require(asm_eval >= 100, "too few assembler-level cells evaluated (%d)" % asm_eval)
+        grid_sizes = {e: sum(1 for c in {c.ident(): c for c in full[e]}.values() if not c.control) for e in ENGINES}
+        return ctx.finish({
+            "evaluations": n_proc,
+            "distinct_nontrivial": len(distinct),
+            "rule": "distinct (engine, op, element kind, construction, length, pre-pops, index) out-of-range cells that were executed "
+                    "(one process each) AND whose in-range controls of the same (engine, op, kind, construction, length) printed the "
+                    "expected value + AFTER and exited 0, plus distinct (runner, opcode, field count, k) assembler cells whose control passed",
+            "exhaustive": True,
+            "explanation": ("grid = lengths 0..8 x indices {-1, len, len+1, 2^31, 2^32+k for every k<len (2^32 for len 0), 2^63-1, -2^63} x "
+                            "{at, array_set, array_remove_at} x {int,string,bool,struct} x {literal, built by array_push}, plus array_pop on "
+                            "an array of every length 0..8 emptied by in-range pops; enumerated completely on " +
+                            ("vm, nano_vm and the evaluator; native is a stratified sample of %d fault cells" % sum(1 for c in plan["native"][1].values() if not c.control)
+                             if ctx.quick() else "all four engines") +
+                            "; assembler level = {TUPLE_GET, STRUCT_GET, STRUCT_SET, UNION_FIELD} x field counts 0..4 x k in {count, count+1, 255, 256, 65535}"),
+            "grid_fault_cells_per_engine": grid_sizes,
+            "fault_cells_executed": {e: sum(1 for c in plan[e][1].values() if not c.control) for e in ENGINES},
+            "fault_cells_evaluated": evaluated,
+            "controls": {e: "%d/%d passed" % (controls_ok[e], controls_all[e]) for e in ENGINES},
+            "outcomes": dict(sorted(hist.items())),
+            "control_outcomes": dict(sorted((k, v) for k, v in ctl_hist.items() if not k.endswith("|ok"))),
+            "skipped": dict(sorted(skipped.items())),
+            "asm_cells_evaluated": asm_eval,
+            "asm_outcomes": dict(sorted(asm_hist.items())),
+            "asm_verifier": "nano_vm runs nvm_verify before executing (accepted every case except: %s); the probe runner skips it" % (sorted(verifier_note) or "none"),
+            "char_at_observed_only": dict(sorted(ca_hist.items())),
+            "samples": samples,
+        }, assumptions=[
+            "a run-time error is observed as: no C08:VALUE / C08:AFTER line, exit status != 0 or death by signal, no ASan/UBSan report; "
+            "C08:BEFORE is not required because abort() loses buffered stdout",
+            "the native engine is nanoc (asan flavor) + tools/fastcc with -fsanitize=address,undefined; SIGABRT from the runtime's assert() "
+            "is left as a signal (handle_abort=0) and counts as stopping",
+            "the evaluator is observed through nanoc --verbose (shadow output is discarded otherwise); 'no binary' = main.bin does not exist",
+            "cells whose in-range control does not behave on an engine (e.g. array literals of structs do not compile natively, the evaluator "
+            "cannot pop/remove from literal arrays or array_set pushed ones: census / C03 findings) are skipped and counted, not judged",
+            "char_at is outside the statement of C08 (strings) and docs/STDLIB.md contradicts itself; it is recorded, not judged",
+        ])
